@@ -486,6 +486,7 @@ class PlanBuilder:
     def __init__(self, rng):
         self.rng = rng
         self.sliced = []  # roots cut by their sequence chunk
+        self.orf_roots = []  # coding roots with a planted ORF (often an alternative start codon) on a parent with sequence
         self.order_twins = []  # pairs of roots that differ only in the order of their children
         self.objects = {}
         self.infos = {}
@@ -573,6 +574,7 @@ def _annotation_roots(pb, rng, size):
         for t_ in gene_["transcripts"]:
             if t_.get("cds_starts") and rng.random() < 0.4:
                 g["seq"] = specs.plant_orf(g["seq"], t_, rng, p_start=0.9, p_stop=0.7, start_codons=("ATG", "TTG", "CTG", "GTG", "ATT", "ATA"))
+                t_["_orf"] = True
     if rng.random() < 0.35 and coll["parent"]["mode"] in ("chrom", "chunk"):
         coll["variant_collections"] = [specs.gen_variant_collection(rng, 0, L, idx="0")]
         if coll["parent"]["mode"] == "chunk":
@@ -595,6 +597,8 @@ def _annotation_roots(pb, rng, size):
     rng.shuffle(roots)
     for kind, spec in roots[: rng.randint(1, 3 + size)]:
         names.append(pb.add_root(kind, spec))
+        if kind in ("transcript", "cds") and spec.get("_orf") and parent["mode"] in ("chrom", "chunk"):
+            pb.orf_roots.append(names[-1])
     # order twins: the same gene / feature collection with its children listed in another order, as a root of its own (so
     # that its pristine twin is built in a process that never saw the first order): whatever is keyed by the SET of children
     # while the answer depends on their ORDER (inferred primary child, iteration order, ties) shows
@@ -779,8 +783,8 @@ def gen_plan(rng, check="C10", size=1, max_steps=60, known_avoid=()):
     covering = 0.27 <= r0 < 0.47
     repeat_op = 0.47 <= r0 < 0.60
     cursors = 0.60 <= r0 < 0.66
-    inherit = 0.66 <= r0 < 0.76
-    thrash = 0.76 <= r0 < 0.83  # memo thrash on a CDS / transcript (argument-keyed memos with more tuples than slots)
+    inherit = 0.66 <= r0 < 0.78
+    thrash = 0.78 <= r0 < 0.86  # memo thrash on a CDS / transcript (argument-keyed memos with more tuples than slots)
     if thrash:
         style = 0.4
         nsess = rng.randint(1, 2)
@@ -866,7 +870,7 @@ def gen_plan(rng, check="C10", size=1, max_steps=60, known_avoid=()):
             rng.shuffle(dops)
             made = 0
             for dop in dops:
-                if made >= 8:
+                if made >= 10:
                     break
                 st = pb.call_step(0, x, dop, store_p=1.0)
                 if not st or "store" not in st:
@@ -879,12 +883,14 @@ def gen_plan(rng, check="C10", size=1, max_steps=60, known_avoid=()):
                     continue
                 yplain = [o for o in REGISTRY[yk] if not o.args]
                 rng.shuffle(yplain)
-                for op in yplain[:22]:
+                # the questions known to keep state (lazy fields, memos) come first, the rest fills up
+                yplain.sort(key=lambda o: o.name not in STATEFUL)
+                for op in yplain[:24]:
                     st2 = pb.call_step(0, y, op, store_p=0.0)
                     if st2:
                         steps.append(st2)
             sessions.append(steps)
-            max_steps = max(max_steps, 260)
+            max_steps = max(max_steps, 320)
     if repeat_op:
         # the same question with different arguments, repeated: thrashes every argument-keyed memo / index
         nsess = 0
@@ -942,7 +948,8 @@ def gen_plan(rng, check="C10", size=1, max_steps=60, known_avoid=()):
             cands = [n for n in roots if pb.objects[n]["kind"] in ("cds", "transcript")]
             if cands:
                 special = [n for n in pb.sliced if n in cands]
-                target = rng.choice(special) if special and rng.random() < 0.6 else rng.choice(cands)
+                orfs = [n for n in pb.orf_roots if n in cands]
+                target = rng.choice(orfs) if orfs and rng.random() < 0.5 else (rng.choice(special) if special and rng.random() < 0.6 else rng.choice(cands))
                 kind = pb.objects[target]["kind"]
                 names = (["translate(args)", "scan_chunk_relative_codon_locations", "scan_chromosome_codon_locations",
                           "translate", "extract_sequence", "chunk_relative_codon_locations"]
@@ -967,6 +974,7 @@ def gen_plan(rng, check="C10", size=1, max_steps=60, known_avoid=()):
                         if rng.random() < 0.5:
                             roots.append(st["store"])  # visible to later sessions too
         sessions.append(steps)
+    base_steps = sum(len(x) for x in sessions)
     # spotlight: a root with unusual book-keeping (cut by its chunk, overlapping CDS blocks) gets a short session of its
     # own made of the questions that keep two sets of books (codon locations vs sequence), in a seed-chosen order
     for n in pb.sliced:
@@ -1006,6 +1014,19 @@ def gen_plan(rng, check="C10", size=1, max_steps=60, known_avoid=()):
                     steps.append(st)
         if steps:
             sessions.append(steps)
+    # roots with a real ORF: the protein / start-codon questions under every translation table and both truncation flags
+    for n in pb.orf_roots:
+        if rng.random() < 0.5:
+            kind = pb.objects[n]["kind"]
+            qs = [x for x in (("translate(args)", "translate", "has_start_codon_in_specific_translation_table", "scan_codons") if kind == "cds"
+                              else ("get_protein_sequence(args)", "get_protein_sequence", "has_start_codon_in_specific_translation_table")) if x in BY_NAME[kind]]
+            steps = []
+            for _ in range(rng.randint(4, 9)):
+                st = pb.call_step(len(sessions), n, BY_NAME[kind][rng.choice(qs)], store_p=0.0)
+                if st:
+                    steps.append(st)
+            if steps:
+                sessions.append(steps)
     # order twins are asked the order-sensitive questions one after the other (either one first)
     for pair in pb.order_twins:
         pair = list(pair)
@@ -1045,6 +1066,8 @@ def gen_plan(rng, check="C10", size=1, max_steps=60, known_avoid=()):
                         if st2:
                             steps.append(st2)
         sessions.append(steps)
+    # the special-purpose sessions added above come on top of the history budget (they must not crowd out the others)
+    max_steps += sum(len(x) for x in sessions) - base_steps
     # noise session
     fault_rate = rng.choice([0.0, 0.08, 0.15, 0.25])
     enabled = [k for k in ("flood", "gc", "touch") if rng.random() < 0.75]
